@@ -42,6 +42,17 @@ pub struct TypeGenerator<'a> {
     settings: &'a TypeGeneratorSettings,
 }
 
+/// Whether a recorded field type name mentions `Box<..>`. The match has to start at an identifier
+/// boundary, so that a user type such as `MyBox<u8>` is not mistaken for a `Box`.
+fn type_name_contains_box(type_name: &str) -> bool {
+    type_name.match_indices("Box<").any(|(idx, _)| {
+        !type_name[..idx]
+            .chars()
+            .next_back()
+            .is_some_and(|c| c.is_alphanumeric() || c == '_')
+    })
+}
+
 impl<'a> TypeGenerator<'a> {
     /// Construct a new [`TypeGenerator`].
     pub fn new(type_registry: &'a PortableRegistry, settings: &'a TypeGeneratorSettings) -> Self {
@@ -229,7 +240,7 @@ impl<'a> TypeGenerator<'a> {
                     let is_boxed = field
                         .type_name
                         .as_ref()
-                        .map(|e| e.contains("Box<"))
+                        .map(|e| type_name_contains_box(e))
                         .unwrap_or_default();
 
                     for param in path.parent_type_params().iter() {
@@ -254,7 +265,7 @@ impl<'a> TypeGenerator<'a> {
                     let is_boxed = field
                         .type_name
                         .as_ref()
-                        .map(|e| e.contains("Box<"))
+                        .map(|e| type_name_contains_box(e))
                         .unwrap_or_default();
 
                     for param in path.parent_type_params().iter() {
